@@ -242,7 +242,15 @@ def termlist_term_matrix(sites, term):
     operator names ('Cd JW'), but the string on the sites *between* the listed sites is implied: a JW operator sits on a gap site
     iff the operators to the right of it are in total fermionic (odd number flagged need_JW)."""
     term = sorted(term, key=lambda t: t[1])
-    need = [sites[i].op_needs_JW(n) for n, i in term]
+
+    def odd(site, name):
+        # physical fermion parity of the written operator (products like 'dNdN JW' are flagged need_JW by the bookkeeping
+        # although they commute with the Jordan-Wigner sign): anticommutes with JW <=> odd
+        O = op_dense(site, name)
+        J = np.diag(jw_diag(site))
+        return np.linalg.norm(O @ J + J @ O) < 1e-12 * max(1.0, np.linalg.norm(O)) and np.linalg.norm(O) > 0
+
+    need = [odd(sites[i], n) for n, i in term]
     ops = {}
     for k, (n, i) in enumerate(term):
         if i in ops:
